@@ -45,6 +45,14 @@ func (n Name) String() string {
 	if n == stake {
 		return "stake"
 	}
+	if n.Id >= 500 && n.Id < 900 {
+		// a composite symbol: the first 1..3 bytes of "xyz" followed by the ordinary name (Id%100, Len-plen):
+		// the ordinary name is a proper suffix of it
+		plen := (n.Id - 500) / 100
+		if plen >= 1 && plen <= 3 && n.Len > plen {
+			return "xyz"[:plen] + Name{n.Id % 100, n.Len - plen}.String()
+		}
+	}
 	pre := ""
 	switch {
 	case n.Id >= 0:
@@ -163,6 +171,7 @@ type world struct {
 	names   map[string]Name
 	denoms  []Name
 	accts   []int // bank accounts observed
+	extra   []int // derived (non-20-byte) addresses the history mentions: never hold coins, never sign
 	holders []int // ERC20 holders observed
 	cids    *lib.Interner
 }
@@ -177,6 +186,15 @@ func (w *world) addr(a int) sdk.AccAddress {
 		return lib.ModuleAddr(authtypes.FeeCollectorName)
 	case a == accGov:
 		return lib.ModuleAddr(govtypes.ModuleName)
+	case a >= 300 && a < 400:
+		// a DERIVED address: the bytes of actor (a-300)/10 followed by the first (a-300)%10 bytes of "xyz" — a legal
+		// sdk address of 21..23 bytes. The owner index key 0x03 || owner || symbol has no separator, so
+		// (derived(i, p), s) and (actor i, p ++ s) share one key.
+		i, plen := (a-300)/10, (a-300)%10
+		if i < len(w.e.Actors) && plen >= 1 && plen <= 3 {
+			return sdk.AccAddress(append(append([]byte{}, w.e.Actors[i].Bytes()...), []byte("xyz"[:plen])...))
+		}
+		return nil
 	case a >= 200:
 		b := make([]byte, 20)
 		b[0] = 0xee
@@ -202,7 +220,7 @@ func (w *world) addrStr(a int) string {
 func (w *world) eth(a int) common.Address { return common.BytesToAddress(w.addr(a).Bytes()) }
 
 func (w *world) acctOf(bech string) int {
-	for _, a := range append(append([]int{}, w.accts...), accGov) {
+	for _, a := range append(append(append([]int{}, w.accts...), accGov), w.extra...) {
 		if w.addrStr(a) == bech {
 			return a
 		}
@@ -305,6 +323,15 @@ func exec(h History) lib.Case {
 		w.accts = append(w.accts, i)
 	}
 	w.accts = append(w.accts, accModule, accFeeCol)
+	seenX := map[int]bool{}
+	for _, op := range h.Steps {
+		for _, a := range []int{op.A, op.B} {
+			if a >= 300 && a < 400 && !seenX[a] {
+				seenX[a] = true
+				w.extra = append(w.extra, a)
+			}
+		}
+	}
 	w.holders = append(w.holders, w.accts...)
 	seenH := map[int]bool{}
 	for _, op := range h.Steps {
@@ -635,9 +662,13 @@ func (w *world) observe(code int) (string, obsData) {
 	it = storetypes.KVStorePrefixIterator(store, tokentypes.PrefixTokens)
 	for ; it.Valid(); it.Next() {
 		key := it.Key()
-		owner := sdk.AccAddress(key[1:21]).String()
-		sym := string(key[21:])
-		if strVal(it.Value()) != sym {
+		// the key is 0x03 || owner bytes || symbol with no separator and owners of any length: the symbol is the
+		// entry's value, the owner is what precedes it in the key
+		sym := strVal(it.Value())
+		owner := "?"
+		if len(key) > 1+len(sym) && string(key[len(key)-len(sym):]) == sym {
+			owner = sdk.AccAddress(key[1 : len(key)-len(sym)]).String()
+		} else {
 			sym = "?" + sym
 		}
 		owned = append(owned, lib.App("OE", z(w.acctOf(owner)), w.nameOf(sym).flat()))
